@@ -73,8 +73,17 @@ def child_setup(env):
     def do_peek(no_off):
         return list(os.pread(objs["lf"].fd, 1, no_off))
 
+    def do_copydrop():
+        """the lock file object is pickled (as when it is sent to a worker) and the unpickled copy is dropped again"""
+        import gc
+        import pickle
+        c = pickle.loads(pickle.dumps(objs["lf"]))
+        del c
+        gc.collect()
+        return True
+
     return {"open": do_open, "newlock": do_newlock, "enter": do_enter, "poll": do_poll,
-            "send": do_send, "exit": do_exit, "peek": do_peek,
+            "send": do_send, "exit": do_exit, "peek": do_peek, "copydrop": do_copydrop,
             "t_newlock": t_newlock, "t_enter": t_enter, "t_poll": t_poll, "t_send": t_send, "t_exit": t_exit}
 
 
@@ -100,6 +109,8 @@ class C15(Check):
             {"kind": "B", "n": 2, "window": True, "script": [(1, "enter"), (1, "send"), (1, "send"), (1, "exit"), (0, "init"), (1, "enter"), (1, "send"), (1, "exit")]},
             {"kind": "B", "n": 2, "window": False, "script": [(0, "enter"), (1, "enter"), (0, "send"), (0, "exit"), (1, "poll"), (1, "send"), (1, "exit")]},
             # P is inside an exchange with terminal 0, finishes one with terminal 1; Q then wants terminal 0
+            {"kind": "C", "n": 2, "script": [(0, "enter", 0), (0, "send", 0), (0, "copydrop", 0), (1, "enter", 0), (1, "send", 0), (0, "send", 0), (0, "exit", 0),
+                                            (1, "poll", 0), (1, "send", 0), (1, "exit", 0)]},
             {"kind": "C", "n": 2, "script": [(0, "enter", 0), (0, "send", 0), (0, "enter", 1), (0, "send", 1), (0, "exit", 1), (1, "enter", 0), (1, "send", 0),
                                             (0, "send", 0), (0, "exit", 0), (1, "poll", 0), (1, "send", 0), (1, "exit", 0)]},
             {"kind": "B", "n": 2, "slots": 2, "window": False,
@@ -149,7 +160,7 @@ class C15(Check):
         for _ in range(25 if self.tier == "quick" else 250):
             script = []
             for _ in range(rng.randint(10, 30)):
-                script.append((rng.randrange(2), rng.choice(["enter", "poll", "send", "send", "exit"]), rng.randrange(2)))
+                script.append((rng.randrange(2), rng.choice(["enter", "poll", "send", "send", "exit", "copydrop"]), rng.randrange(2)))
             out.append({"kind": "C", "n": 2, "script": script})
         return out
 
@@ -352,6 +363,10 @@ class C15(Check):
                             evs[t].append(("lockfail", p))
                         sst[(p, t)] = "want"
                     refresh(p, skip=t)
+                elif cmd == "copydrop":
+                    # a second LockFile object of this process comes and goes: the locks held through the first one must stay
+                    kids[p].call("copydrop")
+                    refresh(p)
                 elif cmd == "send" and st == "in":
                     r = kids[p].call("t_send", no)
                     if r[0] != "ok":
@@ -536,7 +551,7 @@ class C15(Check):
         return ("A: 2-4 tasks in one event loop doing 1-3 exchanges of 1-3 messages each on one MailboxLock or one ParallelMailboxLock, random yields; "
                 "B: 2-3 real processes sharing one lock file, commands (enter/poll/send/exit, creator's late initialisation) interleaved by the harness, half of "
                 "the cases start inside the creation window; C: two processes each using TWO terminals on the shared lock file (an exchange with one terminal running "
-                "while exchanges with the other begin and end); non-trivial = at least 4 log entries / messages")
+                "while exchanges with the other begin and end, and pickled copies of the lock file object come and go); non-trivial = at least 4 log entries / messages")
 
     def distribution(self, cases, observed):
         d = {"A": 0, "B": 0, "C": 0, "B_window": 0, "messages": 0, "blocked_enters": 0}
